@@ -81,7 +81,32 @@ func runC02(c *Ctx) {
 			selfCalls = append(selfCalls, call)
 		}
 	})
-	if len(selfCalls) < 2 {
+	// one call serves both sides when its node argument is read through a pointer that selects the link
+	// (child := &root.left; if cmp > 0 { child = &root.right }; … t.insert(…, *child, limit-1))
+	bothSides := false
+	if len(selfCalls) == 1 {
+		for _, a := range selfCalls[0].Call.Args {
+			ld, ok := a.(*ssa.UnOp)
+			if !ok || ld.Op != token.MUL {
+				continue
+			}
+			ph, ok := ld.X.(*ssa.Phi)
+			if !ok {
+				continue
+			}
+			flds := map[string]bool{}
+			for _, e := range ph.Edges {
+				if fa, ok := e.(*ssa.FieldAddr); ok {
+					_, f := fieldVarOf(fa)
+					flds[f.Name()] = true
+				}
+			}
+			if len(flds) >= 2 {
+				bothSides = true
+			}
+		}
+	}
+	if len(selfCalls) < 2 && !bothSides {
 		c.undecided("R-DEPTH-BUDGET", "stree.(*Tree).insert:descent", ins.Pos(), fmt.Sprintf("%d recursive calls found (a binary descent has two)", len(selfCalls)))
 		return
 	}
@@ -316,7 +341,35 @@ func runC02(c *Ctx) {
 		}
 	}
 	walk(rw.Call.Args[1])
+	// a size that reaches the helper as a parameter is decomposed at the call site inside the insertion
+	var insLeaves []ssa.Value
+	if hostCall != nil {
+		var walk2 func(v ssa.Value)
+		walk2 = func(v ssa.Value) {
+			insLeaves = append(insLeaves, v)
+			if bo, ok := v.(*ssa.BinOp); ok && bo.Op == token.ADD {
+				walk2(bo.X)
+				walk2(bo.Y)
+			}
+		}
+		for _, l := range ls {
+			if tl := toIns(l); tl != nil {
+				walk2(tl)
+			}
+		}
+	}
 	hasFlag, hasSib, hasOne := false, false, false
+	for _, l := range insLeaves {
+		if l == flagPhi {
+			hasFlag = true
+		}
+		if call, ok := l.(*ssa.Call); ok && staticCallee(&call.Call) == nodeSize {
+			hasSib = true
+		}
+		if isConstInt(l, 1) {
+			hasOne = true
+		}
+	}
 	for _, l := range ls {
 		if tl := toIns(l); tl != nil && tl == flagPhi {
 			hasFlag = true
